@@ -3,6 +3,7 @@ package main
 import (
 	"fmt"
 	"go/types"
+	"regexp"
 	"strings"
 
 	"golang.org/x/tools/go/ssa"
@@ -110,7 +111,11 @@ func (ex *Exec) harnessCall(fr *frame, fn *ssa.Function, args []Value) Value {
 		x.assume(args[0].(*Term))
 		return nil
 	case "verifAssert":
-		x.assert(argStr(args[0]), args[1].(*Term))
+		id := argStr(args[0])
+		if (assertInclude != nil && !assertInclude.MatchString(id)) || (assertExclude != nil && assertExclude.MatchString(id)) {
+			return nil // assertion of another property sharing this harness
+		}
+		x.assert(id, args[1].(*Term))
 		return nil
 	case "verifReach":
 		if !x.replaying() {
@@ -155,6 +160,8 @@ func (ex *Exec) harnessCall(fr *frame, fn *ssa.Function, args []Value) Value {
 }
 
 var harnessExt = map[string]intrinsic{}
+
+var assertInclude, assertExclude *regexp.Regexp
 
 func ufOnStr(name string, k Kind, w int, s Str) *Term {
 	return mkUF(fmt.Sprintf("%s@%d", name, len(s.b)), k, w, s.b...)
